@@ -3145,6 +3145,13 @@ def update_working_tree(
                     ) from e
 
                 _transition_to_absent(repo, path, full_path, delete_stat, index)
+            else:
+                # Nothing of ours to remove on disk, but the path is no longer
+                # tracked
+                try:
+                    del index[path]
+                except KeyError:
+                    pass
 
     # Write only after everything that goes away has been removed: a directory
     # that becomes a file still holds its old entries until they are deleted,
